@@ -57,6 +57,7 @@ func __visited(k any) bool                               { return true }
 func __forallcells[T any](f func(T) bool) bool           { return true }
 func __samecontent(a, b any) bool                        { return true }
 func __samemap(a, b any) bool                            { return true }
+func __cancelled(ctx any) bool                           { return false }
 func __rlocks(mu any) int                                { return 0 }
 func __wlocked(mu any) bool                              { return false }
 `
